@@ -94,6 +94,10 @@ def veq(ex, x, y):
     x, y = ex.deref(x), ex.deref(y)
     if isinstance(x, LazyEnum) or isinstance(y, LazyEnum):
         if x is y: return True
+        le = x if isinstance(x, LazyEnum) else y
+        if all(v.kind == 'plain' for v in le.adt.variants) and isinstance(x, (LazyEnum, Agg)) and isinstance(y, (LazyEnum, Agg)):
+            dx, dy = ex.disc(x), ex.disc(y)
+            return (zi(dx) == zi(dy)) if (is_sym(dx) or is_sym(dy)) else dx == dy
         raise Unsupported('structural equality on lazy input value')
     if isinstance(x, Str) and isinstance(y, Str): return str_eq(x.chars, y.chars)
     if isinstance(x, Agg) and isinstance(y, Agg):
